@@ -63,14 +63,14 @@ type Event struct {
 }
 
 type Probe struct {
-	Name     string         `json:"name"`
-	Pending  map[string]int `json:"pending,omitempty"` // hook: client conn id -> pending entries
-	Pooled   int            `json:"pooled"`            // hook: pooled connections (-1 unknown)
-	SendG    int            `json:"send_g"`            // goroutines inside (*conn).Send of the transport package, minus baseline
-	RecvG    int            `json:"recv_g"`
-	CallG    int            `json:"call_g"` // goroutines inside (*conn).Transport
+	Name     string            `json:"name"`
+	Pending  map[string]int    `json:"pending,omitempty"` // hook: client conn id -> pending entries
+	Pooled   int               `json:"pooled"`            // hook: pooled connections (-1 unknown)
+	SendG    int               `json:"send_g"`            // goroutines inside (*conn).Send of the transport package, minus baseline
+	RecvG    int               `json:"recv_g"`
+	CallG    int               `json:"call_g"`           // goroutines inside (*conn).Transport
 	Parked   map[string]string `json:"parked,omitempty"` // caller -> goroutine state if it sits in (*conn).Transport
-	Returned []int          `json:"returned"`
+	Returned []int             `json:"returned"`
 }
 
 type Obs struct {
@@ -208,6 +208,7 @@ type peer struct {
 	nreq    int
 	auto    bool
 	lastUDP *net.UDPAddr
+	udpIDs  map[string]int
 	closed  bool
 	tmp     string
 }
@@ -346,15 +347,28 @@ func (p *peer) udpLoop() {
 		if crc32.ChecksumIEEE(buf[4:8]) != binary.BigEndian.Uint32(buf[0:4]) || 8+length > n {
 			continue
 		}
+		// a "connection" of the udp client is its source address
+		key := addr.String()
 		p.mu.Lock()
 		p.lastUDP = addr
+		id, seen := p.udpIDs[key]
+		if !seen {
+			id = len(p.udpIDs)
+			p.udpIDs[key] = id
+			p.conns = append(p.conns, &peerConn{id: id})
+		}
 		p.mu.Unlock()
-		p.record(0, index, buf[8:8+length], addr)
+		if !seen {
+			e := ev("peer-accept")
+			e.C = id
+			p.rs.add(e)
+		}
+		p.record(id, index, buf[8:8+length], addr)
 	}
 }
 
 func newPeer(kind string, rs *runState, id int) (*peer, error) {
-	p := &peer{kind: kind, rs: rs, reqs: map[int]request{}}
+	p := &peer{kind: kind, rs: rs, reqs: map[int]request{}, udpIDs: map[string]int{}}
 	switch kind {
 	case "tcp":
 		ln, err := net.Listen("tcp", "127.0.0.1:0")
@@ -492,8 +506,8 @@ func (p *peer) shutdown() {
 // ---------------------------------------------------------------------------------- real service
 
 type service struct {
-	rs  *runState
-	url string
+	rs   *runState
+	url  string
 	stop func()
 }
 
@@ -573,14 +587,15 @@ func newService(kind string, rs *runState) (*service, error) {
 // ---------------------------------------------------------------------------------- goroutine census
 
 type census struct {
-	send, recv, call int
-	callState        map[int64]string
+	kind      map[int64]string // goroutine id -> "send" | "recv" | "call"
+	callState map[int64]string
 }
 
+// goroutines that sit inside (*conn).Send / Receive / Transport of one of the three transport packages
 func takeCensus() census {
 	buf := make([]byte, 4<<20)
 	n := runtime.Stack(buf, true)
-	c := census{callState: map[int64]string{}}
+	c := census{kind: map[int64]string{}, callState: map[int64]string{}}
 	for _, blk := range strings.Split(string(buf[:n]), "\n\n") {
 		if !strings.HasPrefix(blk, "goroutine ") {
 			continue
@@ -594,21 +609,40 @@ func takeCensus() census {
 		if !inTransportPkg {
 			continue
 		}
+		f := strings.Fields(head)
+		if len(f) < 3 {
+			continue
+		}
+		id, _ := strconv.ParseInt(f[1], 10, 64)
 		switch {
 		case strings.Contains(blk, ".(*conn).Send("):
-			c.send++
+			c.kind[id] = "send"
 		case strings.Contains(blk, ".(*conn).Receive("):
-			c.recv++
+			c.kind[id] = "recv"
 		case strings.Contains(blk, ".(*conn).Transport("):
-			c.call++
-			f := strings.Fields(head)
-			if len(f) >= 3 {
-				id, _ := strconv.ParseInt(f[1], 10, 64)
-				c.callState[id] = strings.Trim(strings.Join(f[2:], " "), "[]:")
-			}
+			c.kind[id] = "call"
+			c.callState[id] = strings.Trim(strings.Join(f[2:], " "), "[]:")
 		}
 	}
 	return c
+}
+
+// count the goroutines of each kind that did not exist at the start of the case
+func (c census) since(base census) (send, recv, call int) {
+	for id, k := range c.kind {
+		if _, old := base.kind[id]; old {
+			continue
+		}
+		switch k {
+		case "send":
+			send++
+		case "recv":
+			recv++
+		case "call":
+			call++
+		}
+	}
+	return
 }
 
 func roleOfStack() string {
@@ -783,8 +817,8 @@ func Run(c *Case) *Obs {
 	}
 	probe := func(name string) {
 		cs := takeCensus()
-		pr := Probe{Name: name, Pooled: -1, SendG: cs.send - base.send, RecvG: cs.recv - base.recv, CallG: cs.call - base.call,
-			Parked: map[string]string{}}
+		sg, rg, cg := cs.since(base)
+		pr := Probe{Name: name, Pooled: -1, SendG: sg, RecvG: rg, CallG: cg, Parked: map[string]string{}}
 		rs.mu.Lock()
 		for g, k := range rs.goids {
 			if st, ok := cs.callState[g]; ok {
@@ -894,7 +928,17 @@ func Run(c *Case) *Obs {
 					e := ev("peer-partial")
 					e.K, e.C, e.I, e.X = num(arg(1)), r.conn, int(r.index), n
 					rs.add(e)
-					p.sendRaw(r.conn, raw[:n], r.addr)
+					if p.kind == "ws" {
+						// a websocket frame header announcing 256 bytes of binary payload, then only n of them
+						p.mu.Lock()
+						pc := p.conns[r.conn]
+						p.mu.Unlock()
+						pc.wm.Lock()
+						pc.w.UnderlyingConn().Write(append([]byte{0x82, 0x7e, 0x01, 0x00}, raw[:n]...))
+						pc.wm.Unlock()
+					} else {
+						p.sendRaw(r.conn, raw[:n], r.addr)
+					}
 					p.closeConn(r.conn, "close")
 				}
 			}
